@@ -23,3 +23,7 @@ var polyLast Type
 
 // VerifPolyLast returns the value most recently built by VerifPoly.
 func VerifPolyLast() Type { return polyLast }
+
+// VerifIsFloat / VerifFloat: the package exports no float accessor.
+func VerifIsFloat(v Type) bool   { return v.typ == floatT }
+func VerifFloat(v Type) float64  { return v.f() }
